@@ -4,6 +4,8 @@ import (
 	"fmt"
 	"strings"
 	"time"
+
+	"github.com/relex/slog-agent/util"
 )
 
 // parseRFC3339Timestamp parse timestamp in RFC3339 format with fraction part of variable size
@@ -45,7 +47,9 @@ func parseRFC3339Timestamp(timeStr string, timezoneCache map[string]*time.Locati
 			}
 			tzName, tzOffset := z.Zone()
 			location = time.FixedZone(tzName, tzOffset)
-			timezoneCache[tzStr] = location
+			// tzStr is part of the record, i.e. of a pooled buffer that is overwritten once the record is released:
+			// the cache outlives the record and needs its own copy as key
+			timezoneCache[util.DeepCopyString(tzStr)] = location
 		}
 	} else {
 		location = time.Local
